@@ -114,7 +114,8 @@ Theorem ALGO_inv_create_synced : forall g w e en s k ob cs n w3 calls rs,
   rs = Finished /\ exists en3, SCtx g w3 e en3 /\
     s_oid (gs en3 s) = Some (ostr_k k) /\ s_oid (gs en3 (negb s)) <> None /\ s_hash (gs en3 s) = s_shash (gs en3 s) /\
     e_ign en3 = INone /\ prov_of w3 s = prov_of w s /\
-    (forall x sd0, x <> e -> getx w3 x sd0 = getx w x sd0) /\ (forall sd0, x_lg (getx w3 e sd0) = x_lg (getx w e sd0)).
+    (forall x sd0, x <> e -> getx w3 x sd0 = getx w x sd0) /\ (forall sd0, x_lg (getx w3 e sd0) = x_lg (getx w e sd0)) /\
+    (forall sd0 k0 cs0, g_get k0 (g_of g sd0) = Some cs0 -> obj_at w3 sd0 k0 = obj_at w sd0 k0).
 Proof. exact create_pres. Qed.
 Print Assumptions ALGO_inv_create_synced.
 
@@ -131,7 +132,8 @@ Theorem ALGO_inv_upload_synced : forall g w e en s k ob cs k' ob' n w3 calls up,
   up = true /\ exists en3, SCtx g w3 e en3 /\
     s_oid (gs en3 s) = Some (ostr_k k) /\ s_oid (gs en3 (negb s)) <> None /\ s_hash (gs en3 s) = s_shash (gs en3 s) /\
     e_ign en3 = INone /\ prov_of w3 s = prov_of w s /\
-    (forall x sd0, x <> e -> getx w3 x sd0 = getx w x sd0) /\ (forall sd0, x_lg (getx w3 e sd0) = x_lg (getx w e sd0)).
+    (forall x sd0, x <> e -> getx w3 x sd0 = getx w x sd0) /\ (forall sd0, x_lg (getx w3 e sd0) = x_lg (getx w e sd0)) /\
+    (forall sd0 k0 cs0, g_get k0 (g_of g sd0) = Some cs0 -> obj_at w3 sd0 k0 = obj_at w sd0 k0).
 Proof. exact upload_pres. Qed.
 Print Assumptions ALGO_inv_upload_synced.
 
@@ -140,21 +142,24 @@ Theorem ALGO_inv_delete_synced : forall g w e en s k w3 calls rs,
   SCtx g w e en -> e_ign en = INone -> s_ex (gs en s) = ExTrashed -> s_oid (gs en s) = Some (ostr_k k) ->
   delete_synced w e s = ROk (w3, calls, rs) ->
   rs = Finished /\ exists en3, SCtx g w3 e en3 /\ is_discarded (e_ign en3) = true /\
-    (forall x sd0, getx w3 x sd0 = getx w x sd0).
+    (forall x sd0, getx w3 x sd0 = getx w x sd0) /\
+    (forall sd0 k0 cs0, g_get k0 (g_of g sd0) = Some cs0 -> obj_at w3 sd0 k0 = obj_at w sd0 k0).
 Proof. exact delete_pres. Qed.
 Print Assumptions ALGO_inv_delete_synced.
 
 (* ---- the invariant: one whole engine step --------------------------------------------------------------------- *)
 (* SyncManager.do = SyncState.change (path-filling loop, tick, pick) + pre_sync + sync + storage_commit, for EVERY
-   iteration order of the change set and every world satisfying the invariant; no temp file outlives the step *)
+   iteration order of the change set and every world satisfying the invariant; no temp file outlives the step;
+   [OwnFrame g w w']: every object a user made is, cell for cell, what it was (the engine only makes, writes and
+   deletes its own mirrors) *)
 Theorem ALGO_inv_sync_step : forall g w order w' cs,
-  Inv g w -> NoTmp w -> sync_step w order = ROk (w', cs) -> Inv g w' /\ NoTmp w'.
+  Inv g w -> NoTmp w -> sync_step w order = ROk (w', cs) -> Inv g w' /\ NoTmp w' /\ OwnFrame g w w'.
 Proof. exact sync_step_pres. Qed.
 Print Assumptions ALGO_inv_sync_step.
 
 (* every engine action (event intake of a side, or a sync step), at every clock reading *)
 Theorem ALGO_inv_engine_step : forall g w a w' cs,
-  Inv g w -> NoTmp w -> (forall sd o, a <> AUser sd o) -> algo_step w a = ROk (w', cs) -> Inv g w' /\ NoTmp w'.
+  Inv g w -> NoTmp w -> (forall sd o, a <> AUser sd o) -> algo_step w a = ROk (w', cs) -> Inv g w' /\ NoTmp w' /\ OwnFrame g w w'.
 Proof. exact engine_step_pres. Qed.
 Print Assumptions ALGO_inv_engine_step.
 
